@@ -75,10 +75,19 @@ def make_contents(seed):
             continue
         n1, n2 = kp.get_kern_from_ekern(e1), kp.get_kern_from_ekern(e2)
         d1 = kp.dumps(kp.loads(k1)[0])
-        table = {'K1': k1, 'K2': k2, 'KBAD': kbad, 'E1': e1, 'E2': e2, 'N1': n1, 'N2': n2, 'D1': d1, 'T': 'just some text\n'}
+        x1 = kp.dumps(kp.loads(k1)[0], **dump_options())
+        table = {'K1': k1, 'K2': k2, 'KBAD': kbad, 'E1': e1, 'E2': e2, 'N1': n1, 'N2': n2, 'D1': d1, 'X1': x1, 'T': 'just some text\n'}
         if len(set(table.values())) == len(table):
             return table
     raise MachineryError('could not build distinguishable file contents')
+
+
+def dump_options():
+    """every option of dump / dumps away from its default (a forgotten keyword in either function shows)"""
+    import kernpy as kp
+    C = kp.TokenCategory
+    return dict(spine_types=['**kern', '**text'], include=[C.CORE, C.STRUCTURAL, C.BARLINES, C.SIGNATURES, C.LYRICS], exclude=[C.DECORATION, C.CLEF],
+                encoding=kp.Encoding.eKern, spine_ids=[0, 1])
 
 
 TREES = {
@@ -166,6 +175,11 @@ def replay(i):
             if a['act'] == 'dump':
                 try:
                     kp.dump(doc1, fpath(root, p))
+                except Exception:  # noqa
+                    ok = False
+            elif a['act'] == 'dump_opts':
+                try:
+                    kp.dump(doc1, fpath(root, p), **dump_options())
                 except Exception:  # noqa
                     ok = False
             else:
